@@ -16,11 +16,11 @@ TABLE = {
     },
     "C01": {
         "mods": ["contracts.glue"],
-        "keys": ["SQLModel.select_rows_to_near_sql", "SQLModel.rename_to_near_sql", "SQLModel.map_columns_to_near_sql", "SQLModel.project_to_near_sql", "SQLModel.order_to_near_sql",
+        "keys": ["SQLModel.select_rows_to_near_sql", "SQLModel.select_columns_to_near_sql", "SQLModel.rename_to_near_sql", "SQLModel.map_columns_to_near_sql", "SQLModel.project_to_near_sql", "SQLModel.order_to_near_sql",
                  "SQLModel.extend_to_near_sql:window-clause", "SQLModel.extend_to_near_sql:term-assembly", "SQLiteModel._emit_right_join_as_left_join"],
         "groups_extra": [(["contracts.c04_format"], ["SQLModel._indent_and_sep_terms"]), (["contracts.c14_quote"], ["SQLModel.quote_identifier"])],
-        "explanation": ("hybrid: PROVED (pyvc) -- what the SQL generator writes for seven operator translations, for all nodes and all requested column sets: select_rows (requested columns passed through, "
-                        "WHERE sql(expr)), rename / map_columns (new = quoted old, untouched requested columns passed through, deleted ones dropped), project (GROUP BY names ALL group keys, none without keys), "
+        "explanation": ("hybrid: PROVED (pyvc) -- what the SQL generator writes for eight operator translations, for all nodes and all requested column sets: select_rows (requested columns passed through, "
+                        "WHERE sql(expr)), select_columns (terms narrowed in place, '*' stays '*'), rename / map_columns (new = quoted old, untouched requested columns passed through, deleted ones dropped), project (GROUP BY names ALL group keys, none without keys), "
                         "order_rows (ORDER BY / DESC / LIMIT, limit=0 included), extend (OVER clause lists all partition and order columns with DESC on the reversed ones; every term is sql(expr)+clause and "
                         "declares the window columns as dependencies), the SQLite right-join emulation (sources and keys swapped), the term layout routine and identifier quoting. These obligations say "
                         "WHICH pieces are written WHERE; that SQLite then computes what Pandas computes (null semantics, aggregation, joins, expression translation `expr_to_sql`, natural_join / concat_rows / "
@@ -38,8 +38,8 @@ TABLE = {
         "assumptions": ["pandas / polars: sort_values, sort, head, iloc, loc, select, rename, reset_index are functions of their arguments (library contracts assumed)"],
     },
     "C08": {
-        "mods": ["contracts.glue"], "keys": ["PandasModel._select_columns_step", "PandasModel._rename_columns_step", "PolarsModel._table_step", "PandasModel._table_step", "SQLModel.select_rows_to_near_sql", "SQLModel.rename_to_near_sql", "SQLModel.map_columns_to_near_sql"],
-        "explanation": ("hybrid: PROVED (pyvc) -- SQLModel.select_rows_to_near_sql selects exactly the requested columns (all of the step's columns by default), each passed through unchanged, and filters by the node's own expression (suffix WHERE indent+sql(expr)); rename_to_near_sql / map_columns_to_near_sql select every renamed column as new = quoted old, pass exactly the requested untouched source columns through and drop the deleted ones; the column-shaping glue hands the frame library exactly the declared columns: Pandas _table_step and Polars _table_step ALWAYS narrow and order the "
+        "mods": ["contracts.glue"], "keys": ["PandasModel._select_columns_step", "PandasModel._rename_columns_step", "PolarsModel._table_step", "PandasModel._table_step", "SQLModel.select_rows_to_near_sql", "SQLModel.rename_to_near_sql", "SQLModel.map_columns_to_near_sql", "SQLModel.select_columns_to_near_sql"],
+        "explanation": ("hybrid: PROVED (pyvc) -- SQLModel.select_rows_to_near_sql selects exactly the requested columns (all of the step's columns by default), each passed through unchanged, and filters by the node's own expression (suffix WHERE indent+sql(expr)); select_columns_to_near_sql narrows the source query's own term dictionary to the selected columns that are needed and leaves a '*' selection a '*' selection (never a non-dictionary term collection); rename_to_near_sql / map_columns_to_near_sql select every renamed column as new = quoted old, pass exactly the requested untouched source columns through and drop the deleted ones; the column-shaping glue hands the frame library exactly the declared columns: Pandas _table_step and Polars _table_step ALWAYS narrow and order the "
                         "input to op.column_names (eager or lazy, extra or permuted input columns), _select_columns_step selects column_selection in that order, _rename_columns_step renames with the "
                         "node's mapping; BOUNDED -- declared columns = returned columns at every node of every enumerated pipeline on Pandas, Polars and SQLite (extend / project / join / convert_records "
                         "steps and all of the SQL generation are not under contract)"),
